@@ -263,6 +263,13 @@ def malformed_lines(rng, tier: str):
         out.append(("1;2;1;0;" + sp + "0;x", "ws-inside-type"))
     out += [("", "empty"), ("\n", "newline"), (";", "delim"), (";;;;;", "six-empty"), (";;;;;;", "seven-empty"),
             ("invalid", "word")]
+    # the cross-field rule, every combination: child id (system child or not) x command x every type number any
+    # version knows (and a few it does not) — the rule names exactly two internal types as exempt
+    types = sorted({int(t) for v in lib.VERSIONS for t in gen.TABLES["versions"][v]["internal"]} | {-1, 34, 40, 100})
+    for child in ("0", "5", "254", "255"):
+        for cmd in ("0", "1", "2", "3", "4"):
+            for t in types:
+                out.append((f"1;{child};{cmd};0;{t};x", "cross-field"))
     # random pairs of mutations / random products
     k = 10000 if tier == "quick" else 200000
     texts = [t for _, t in gen.INT_TEXTS if len(t) < 1000] + [str(x) for x in (0, 1, 2, 3, 4, 5, 254, 255, 256)]
